@@ -583,6 +583,66 @@ def bounds_units(ctx):
             'value', construct='unguarded self.variable.scale(bound)'))
     else:
         res.ok('bounds scaled under the apply_scaling guard')
+    # absent bounds are recognised by `is None`, never by truthiness: a bound
+    # of exactly 0 is a bound
+    bad = None
+    for nd in ast.walk(f.node):
+        if isinstance(nd, (ast.If, ast.IfExp, ast.While)):
+            tests = [nd.test]
+        elif isinstance(nd, ast.BoolOp):
+            tests = list(nd.values)
+        else:
+            continue
+        for t in tests:
+            core_t = t.operand if isinstance(t, ast.UnaryOp) and isinstance(
+                t.op, ast.Not) else t
+            txt = unparse(core_t)
+            if isinstance(core_t, (ast.Name, ast.Attribute)) and (
+                    'min_val' in txt or 'max_val' in txt):
+                bad = (nd, txt)
+    if bad:
+        res.fail(ctx.finding(
+            'BOUNDS-UNITS', f, bad[0],
+            f'Variable.bounds tests the truth value of {bad[1]}: a bound of '
+            f'exactly 0 is taken for "no bound" and returned unscaled while '
+            f'the value is scaled', construct='bound tested by truthiness'))
+    else:
+        res.ok('absent bounds are detected with `is None`')
+    # update() hands the optimiser's / sampler's value to the behaviour
+    # unchanged: what is recorded as applied is what the lens gets
+    u = P.func('Variable.update')
+    res.saw(u)
+    got = {}
+
+    def inline(call, ev):
+        fn = call.func
+        if isinstance(fn, ast.Attribute) and fn.attr == 'update_value':
+            got.setdefault('v', []).append(ev.ev(call.args[0])
+                                           if call.args else None)
+            return Rat.atom('DONE')
+        return None
+    from ..rat import explore
+
+    def run(ch):
+        got.clear()
+        ev = fn_eval(P, u, inline=inline, choose=ch)
+        return list(got.get('v', []))
+    try:
+        outs = explore(run)
+    except Inconclusive as e:
+        raise AnalysisError(f'Variable.update: {e}')
+    okp = all(len(v) == 1 and isinstance(v[0], Rat) and
+              rat_eq(v[0], Rat.atom(u.params[0])) for _, v in outs)
+    if okp:
+        res.ok('Variable.update passes the given value on unchanged on every '
+               'path')
+    else:
+        res.fail(ctx.finding(
+            'BOUNDS-UNITS', u, u.node,
+            'Variable.update alters the value before applying it (or skips '
+            'the update on some path): the value written to the lens is not '
+            'the one the caller holds (optimiser vector, recorded '
+            'perturbation)', construct='Variable.update value passed on'))
     return res
 
 
@@ -687,5 +747,11 @@ def operand_chain(ctx):
     return res
 
 
-RULES = [operand_chain, apply_result, push_before_run, undo_updates, merit, scale_inverse,
+def c01_pickup(ctx):
+    """shared with C01: pickups, then solves, in Optic.update (what
+    update_optics relies on for 'pickups and solves are satisfied')"""
+    from .C01 import pickup as _r
+    return _r(ctx)
+
+RULES = [c01_pickup, operand_chain, apply_result, push_before_run, undo_updates, merit, scale_inverse,
          get_set_symmetry, var_dispatch, bounds_units]
